@@ -322,8 +322,18 @@ def prev_hedge_ob():
             hold['dep'] = f.is_state_dependent()
             return f.get(SInt(I))
         paths = explore(run, DIMS + STEP, max_paths=4)
-        if len(paths) != 1 or paths[0].outcome() != 'returns' or paths[0].result is not hold['buf'] or not hold['dep']:
-            return Verdict('refuted', 'structural', time.time() - t0, 'PrevHedge.get(i) does not return the hedger\'s prev_output buffer itself', witness={}, replay={'confirmed': False})
+        if len(paths) != 1 or paths[0].outcome() != 'returns':
+            return Verdict('unknown', 'engine', time.time() - t0, str([(p.outcome(), str(p.exception)[:200]) for p in paths]))
+        res = paths[0].result
+        same = res is hold['buf']
+        if not same:
+            # not the buffer object itself: accept any tensor with the buffer's shape and values (e.g. a copy)
+            n_ = tm.var('n', 'I')
+            same = (hasattr(res, '_shape') and len(res._shape) == 3 and res._shape[1] == 1 and res._shape[2] == 1
+                    and smt.prove(paths[0].facts(DIMS + STEP), tm.eq(tm.as_term(lift(res._shape[0])), N), timeout_ms=5000).status == 'unsat'
+                    and fc.prove_eq(paths[0].facts(DIMS + STEP) + [tm.le(tm.IZERO, n_), tm.lt(n_, N)], res.at((n_, tm.IZERO, tm.IZERO)), hold['buf'].at((n_, tm.IZERO, tm.IZERO)), timeout_ms=10000).status == 'unsat')
+        if not same or not hold['dep']:
+            return Verdict('refuted', 'structural + z3', time.time() - t0, 'PrevHedge.get(i) is not the hedger\'s prev_output buffer (shape (N,1,H), same values) / not state dependent', witness={}, replay=_replay_prev())
 
         def run2(c):
             d = mk_derivative()
